@@ -75,6 +75,12 @@ def _cases(tier, seed):
             for R2 in p2:
                 for op in ('add', 'sub', 'mul'):
                     cs.append({'scen': 'tt_binop', 's': {'op': op, 'N1': N1, 'R1': R1, 'N2': N2, 'R2': R2, 'dtype': 'float64'}})
+    # ---- the same after unrelated public calls on the same mode sizes (no state may leak between calls)
+    for N1, N2 in [([2, 3, 4], [3, 4]), ([2, 3, 4], [4]), ([2, 3], [1, 3]), ([2, 3, 4], [2, 3, 4]), ([3], [1]), ([2, 3, 1, 2], [1, 2])]:
+        R1 = [1] + [2] * (len(N1) - 1) + [1]
+        R2 = [1] + [2] * (len(N2) - 1) + [1]
+        for op in ('add', 'sub', 'mul'):
+            cs.append({'scen': 'tt_binop', 's': {'op': op, 'N1': N1, 'R1': R1, 'N2': N2, 'R2': R2, 'dtype': 'float64', 'prelude': 'unrelated_calls'}})
     # ---- dtypes: complex and float32 on a subset
     for dt in ('complex128', 'float32') + (('complex64',) if thorough else ()):
         for N, R1, R2 in [([2, 3], [1, 2, 1], [1, 3, 1]), ([2, 1, 3], [1, 2, 2, 1], [1, 1, 2, 1])]:
